@@ -50,6 +50,8 @@ static int split_commas(const char *s, char ***ret, char **ret_dup)
 }
 
 /* output buffer builder */
+/* exact-size allocations (1 byte when empty) so that ASan sees any access past the n elements the callee was given */
+#define XN(type, n) malloc((n) > 0 ? sizeof(type) * (size_t)(n) : 1)
 static char *ob; static size_t ob_n, ob_cap;
 static void ob_reset(void) { ob_n = 0; if (!ob) { ob_cap = 1024; ob = malloc(ob_cap); } ob[0] = 0; }
 static void ob_add(const char *s) { size_t l = strlen(s); if (ob_n + l + 2 > ob_cap) { ob_cap = 2 * (ob_n + l + 2); ob = realloc(ob, ob_cap); } memcpy(ob + ob_n, s, l + 1); ob_n += l; }
@@ -113,7 +115,7 @@ static void h_op(void)
     double *dv; float *fv; int *iv; int64_t *lv;
     if (!R64) { h_out("bad-op"); return; }
     n = (vv && strcmp(vv, "-")) ? split_commas(vv, &f, &dup) : (f = NULL, dup = NULL, 0);
-    dv = malloc(sizeof(double) * (n + 1)); fv = malloc(sizeof(float) * (n + 1)); iv = malloc(sizeof(int) * (n + 1)); lv = malloc(sizeof(int64_t) * (n + 1));
+    dv = XN(double, n); fv = XN(float, n); iv = XN(int, n); lv = XN(int64_t, n);
     for (i = 0; i < n; i++) { int x = atoi(f[i]); dv[i] = x; fv[i] = (float) x; iv[i] = x; lv[i] = x; }
     if (op[0] == 'd') esl_vec_DShuffle64(R64, dv, n); else if (op[0] == 'f') esl_vec_FShuffle64(R64, fv, n);
     else if (op[0] == 'i') esl_vec_IShuffle64(R64, iv, n); else esl_vec_LShuffle64(R64, lv, n);
@@ -219,7 +221,7 @@ static void h_op(void)
     double *pd = NULL; float *pf = NULL; int pnull = (!pv || !strcmp(pv, "none"));
     if (!pnull) {
       K = split_commas(pv, &f, &dup);
-      pd = malloc(sizeof(double) * (K + 1)); pf = malloc(sizeof(float) * (K + 1));
+      pd = XN(double, K); pf = XN(float, K);
       for (i = 0; i < K; i++) {
         if (isf) { uint32_t u = (uint32_t) strtoul(f[i], NULL, 16); memcpy(&pf[i], &u, 4); }
         else     { uint64_t u = strtoull(f[i], NULL, 16); memcpy(&pd[i], &u, 8); }
@@ -246,10 +248,10 @@ static void h_op(void)
     /* same values as small integers, stored as double / float / int64 / char */
     char **f, *dup; const char *vv = h_arg("v"); int n = (vv && strcmp(vv, "-")) ? split_commas(vv, &f, &dup) : (f = NULL, dup = NULL, 0);
     int i, rev = (op[1] == 'r' || op[2] == 'r'); char t = op[0] == 'v' ? 'c' : op[0]; char num[24];
-    double *dv = malloc(sizeof(double) * (n + 1)), *dd = dv; float *fv = malloc(sizeof(float) * (n + 1)), *fd = fv;
-    int64_t *lv = malloc(sizeof(int64_t) * (n + 1)), *ld = lv; char *cv = malloc(n + 1), *cd = cv;
+    double *dv = XN(double, n), *dd = dv; float *fv = XN(float, n), *fd = fv;
+    int64_t *lv = XN(int64_t, n), *ld = lv; char *cv = XN(char, n), *cd = cv;
     for (i = 0; i < n; i++) { int x = atoi(f[i]); dv[i] = x; fv[i] = (float) x; lv[i] = x; cv[i] = (char) x; }
-    if (rev && !ip) { dd = malloc(sizeof(double) * (n + 1)); fd = malloc(sizeof(float) * (n + 1)); ld = malloc(sizeof(int64_t) * (n + 1)); cd = malloc(n + 1);
+    if (rev && !ip) { dd = XN(double, n); fd = XN(float, n); ld = XN(int64_t, n); cd = XN(char, n);
                       for (i = 0; i < n; i++) { dd[i] = -777; fd[i] = -777; ld[i] = -777; cd[i] = 0x77; } }
     if (!rev) { if (t == 'd') esl_vec_DShuffle(R, dv, n); else if (t == 'f') esl_vec_FShuffle(R, fv, n); else esl_vec_LShuffle(R, lv, n); }
     else { if (t == 'd') esl_vec_DReverse(dv, dd, n); else if (t == 'f') esl_vec_FReverse(fv, fd, n); else if (t == 'l') esl_vec_LReverse(lv, ld, n); else esl_vec_CReverse(cv, cd, n); }
@@ -263,10 +265,10 @@ static void h_op(void)
   }
   if (!strcmp(op, "ishuffle") || !strcmp(op, "ireverse")) {
     char **f, *dup; const char *vv = h_arg("v"); int n = (vv && strcmp(vv, "-")) ? split_commas(vv, &f, &dup) : (f = NULL, dup = NULL, 0);
-    int *v = malloc(sizeof(int) * (n + 1)), *dst = v, i; char num[24];
+    int *v = XN(int, n), *dst = v, i; char num[24];
     for (i = 0; i < n; i++) v[i] = atoi(f[i]);
     if (!strcmp(op, "ishuffle")) esl_vec_IShuffle(R, v, n);
-    else { if (!ip) { dst = malloc(sizeof(int) * (n + 1)); for (i = 0; i < n; i++) dst[i] = -777; } esl_vec_IReverse(v, dst, n); }
+    else { if (!ip) { dst = XN(int, n); for (i = 0; i < n; i++) dst[i] = -777; } esl_vec_IReverse(v, dst, n); }
     ob_reset(); ob_add("ok ");
     for (i = 0; i < n; i++) { sprintf(num, "%s%d", i ? "," : "", dst[i]); ob_add(num); }
     if (n == 0) ob_add("-");
